@@ -1447,3 +1447,111 @@ def gen_conv(g):
 
 
 PROFILES['conv'] = gen_conv
+
+
+# ---------------------------------------------------------------------------
+# C19: quantity programs and constructors with a non-physical parameter
+
+def gen_quant(g):
+    r = g.rng
+    kinds = list(si.UNITS)
+    constrained = ['Length', 'Surface', 'InertiaMoment', 'TimeInterval', 'Angle']
+    prog = []
+    heap_kinds = []          # kinds of the objects the program expects alive
+
+    def mag():
+        c = r.random()
+        if c < 0.08:
+            return 0
+        if c < 0.12:
+            return 0.0
+        m = g.logu(1e-30, 1e30) if g.chance(0.25) else g.logu(1e-3, 1e3)
+        if g.chance(0.3):
+            m = float(r.randint(1, 9))
+        if g.chance(0.35):
+            m = -m
+        if g.chance(0.1):
+            m = int(m) if abs(m) < 1e15 else m
+        return m
+    n_steps = r.randint(3, g.cfg.get('max_steps', 14))
+    for _ in range(n_steps):
+        c = r.random()
+        if not heap_kinds or c < 0.3:
+            kind = r.choice(constrained) if g.chance(0.65) else r.choice(kinds)
+            v = mag()
+            if kind in constrained and g.chance(0.6):
+                v = abs(v) if v else 1.0
+            prog.append({'op': 'new', 'kind': kind, 'v': v,
+                         'u': r.choice(si.units_of(kind))})
+            heap_kinds.append(kind)      # optimistic; failures are fine
+            continue
+        a = r.randrange(len(heap_kinds))
+        if c < 0.55:
+            op = r.choice(['add', 'sub', 'sub', 'mul', 'div'])
+            if g.chance(0.55):
+                # operand of the same kind if one exists (F-BADPARAM: a
+                # difference or product that leaves the valid range)
+                same = [j for j, kk in enumerate(heap_kinds)
+                        if kk == heap_kinds[a] or
+                        {kk, heap_kinds[a]} in ({'Angle', 'AngularPosition'},
+                                                {'Time', 'TimeInterval'})]
+                b = r.choice(same)
+                st = {'op': op, 'a': a, 'b': b}
+            elif g.chance(0.5):
+                st = {'op': op, 'a': a, 'b': r.randrange(len(heap_kinds))}
+            else:
+                st = {'op': op, 'a': a, 'kb': mag()}
+                if g.chance(0.3) and op == 'mul':
+                    st = {'op': op, 'ka': mag(), 'b': a}
+            prog.append(st)
+            heap_kinds.append(heap_kinds[a])
+        elif c < 0.65:
+            prog.append({'op': r.choice(['abs', 'neg', 'neg']), 'a': a})
+            heap_kinds.append(heap_kinds[a])
+        else:
+            prog.append({'op': 'to', 'a': a, 'ui': r.randrange(0, 17),
+                         'inplace': g.chance(0.5)})
+            heap_kinds.append(heap_kinds[a])
+    # indices may exceed the real heap when earlier steps failed: clamp at
+    # execution time is not possible, so renumber against a dry model where
+    # every step succeeds... simpler: operands index modulo the live heap
+    scn = {'seed': g.seed, 'profile': 'quant', 'program': prog,
+           'elements': [], 'decls': [], 'schedule': [],
+           'badparams': gen_badparams(g)}
+    return scn
+
+
+def gen_badparams(g):
+    r = g.rng
+    out = []
+    u = g.unit
+
+    def q(kind, si_value):
+        return g.q(kind, si_value, r.choice(si.units_of(kind)))
+    good_motor = {'w0': q('AngularSpeed', 300.0), 'Tmax': q('Torque', 0.5)}
+    cases = [
+        ('no_load_speed<=0', 'DCMotor', dict(good_motor, w0=q('AngularSpeed', r.choice([0.0, -1.0, -300.0])))),
+        ('maximum_torque<=0', 'DCMotor', dict(good_motor, Tmax=q('Torque', r.choice([0.0, -0.1, -5.0])))),
+        ('no_load_current<0', 'DCMotor', dict(good_motor, i0=q('Current', r.choice([-0.01, -1.0])), imax=q('Current', 2.0))),
+        ('maximum_current<=0', 'DCMotor', dict(good_motor, i0=q('Current', 0.1), imax=q('Current', r.choice([0.0, -2.0])))),
+        ('no_load_current>=maximum', 'DCMotor', dict(good_motor, i0=q('Current', r.choice([2.0, 3.0, 2.0000001])), imax=q('Current', 2.0))),
+        ('pwm_outside', 'DCMotor', dict(good_motor, pwm=r.choice([1.0000001, -1.0000001, 2, -7.5]))),
+        ('teeth<minimum', 'SpurGear', {'z': r.choice([9, 5, 1, 0, -3])}),
+        ('elastic_modulus<=0', 'SpurGear', {'z': 20, 'E': [r.choice([0.0, -1.0, -210.0]), r.choice(si.units_of('Stress'))]}),
+        ('helix>=90deg', 'HelicalGear', {'beta': q('Angle', r.choice([90.0, 90.5, 120.0, 179.0]) * pi / 180)}),
+    ]
+    alpha = r.choice([14.5, 20.0, 25.0, 30.0])
+    hmax = rm.WORM_TABLE[alpha][0]
+    cases += [
+        ('worm_helix>limit', r.choice(['WormGear', 'WormWheel']),
+         {'alpha': [alpha, 'deg'],
+          'beta': q('Angle', (hmax + r.choice([0.5, 2.0, 20.0])) * pi / 180)}),
+        ('worm_starts<1', 'WormGear', {'alpha': [alpha, 'deg'], 'starts': r.choice([0, -1]),
+                                       'beta': q('Angle', 5 * pi / 180)}),
+    ]
+    for what, comp, params in r.sample(cases, r.randint(2, 5)):
+        out.append({'what': what, 'component': comp, 'params': params})
+    return out
+
+
+PROFILES['quant'] = gen_quant
